@@ -25,8 +25,13 @@ type heldTok struct {
 	bin int // harness bin identity: index into binIDs, -1 = unknown bin / unpartitioned
 }
 
+// only violations whose signature (after "<strategy>:") is listed are reported by driveBare (nil = all)
+var bareOnly map[string]bool
+
 // bare strategy driver (component 41) with the C01/C03 oracles
 func driveBare(t *testing.T, prop string, kinds []int, nCases, nOps int) {
+	only := bareOnly
+	bareOnly = nil
 	tr := NewTrace(prop)
 	rep := NewReport(prop)
 	defer func() { tr.Close(); rep.Write(t) }()
@@ -44,6 +49,9 @@ func driveBare(t *testing.T, prop string, kinds []int, nCases, nOps int) {
 			tr.Case(41, cfg.Ints()...)
 			var hist [][]int64
 			fail := func(sig, d string) {
+				if only != nil && !only[sig] {
+					return
+				}
 				rep.Violate(name+":"+sig, fmt.Sprintf("%s (cfg=%v after %d ops)", d, cfg.Ints(), len(hist)), map[string]interface{}{"component": "strategy", "cfg": cfg.Ints(), "ops": hist})
 			}
 			// harness-side identity of bin objects: live bins carry an id; binBusy[id] = outstanding tokens of that object
